@@ -69,6 +69,8 @@ def perturbed_texts(mnem):
               "E-50000", "E*E*1"[:3], "65535/1", "1/0"):
         for tmpl in ("#{}", "{}", "<{}", ">{}", "[{}]", "{},X", "{},Y", "[{},X]", "{},PCR", "[{},U]"):
             yield tmpl.format(e)
+    for t in ("A,X+", "B,-Y", "D,X++", "A,--S", "5,X+", "5,--Y", "[A,X++]", "[5,--Y]", "#5,X", "#5,PCR", "#,X", ",PCR", "[,PCR]", "A,PCR", "[D,PCR]"):
+        yield t
     yield "A,B,X,Y,U,S,PC,CC,DP,D"
     yield "A,,B"
     yield "A,B,"
